@@ -64,7 +64,7 @@ fn same_packet(a: &Result<Packet<'_>, RtcpParseError>, b: &Result<Packet<'_>, Rt
     match (a, b) {
         (Ok(x), Ok(y)) => {
             assert!(core::mem::discriminant(x) == core::mem::discriminant(y));
-            assert!(x.header_data() == y.header_data());
+            assert!(u32::from_be_bytes(x.header_data()) == u32::from_be_bytes(y.header_data()));
             match (x, y) {
                 (Packet::App(p), Packet::App(q)) => assert!(p.ssrc() == q.ssrc() && p.data().len() == q.data().len()),
                 (Packet::Bye(p), Packet::Bye(q)) => assert!(p.ssrcs().next() == q.ssrcs().next() && p.reason().map(|r| r.len()) == q.reason().map(|r| r.len())),
